@@ -340,13 +340,13 @@ fn run(ctx: &mut Ctx) {
     for e in all_exprs(&full, 1) {
         emit(ctx, "exh-full-d1", &e, fixed);
     }
-    //    (b) depth ≤ 2: quick over 5 leaves × {sqrt} × {+,-} × {^,-,*}; thorough over the full alphabet
+    //    (b) depth ≤ 2: quick over 5 leaves × {sqrt} × {+,-} × {^,-}; thorough over 7 leaves × {sin,sqrt} × {+,-} × {^,-,*,/}
     if quick {
         let a = alphabet(
             vec![real(-1.5), num(0.0, 2.0), num(1.5, -0.5), var("x"), addr("a", 0)],
             &[SquareRoot],
             &[P::Plus, P::Minus],
-            &[I::Caret, I::Minus, I::Star],
+            &[I::Caret, I::Minus],
         );
         for e in all_exprs(&a, 2) {
             emit(ctx, "exh-mid-d2", &e, fixed);
